@@ -20,8 +20,8 @@ DEFAULTS = {
     # property: (quick runs, thorough budget seconds, chunk)
     "C15": (4000, 600, 25),
     "C16": (3000, 600, 20),
-    "C17": (320, 600, 2),
-    "C18": (64, 600, 1),
+    "C17": (208, 600, 2),
+    "C18": (112, 600, 1),
 }
 
 
